@@ -47,7 +47,7 @@ from harness.lib import coqbuild
 LEVEL = "proof"
 THEOREMS = ["C14_fail_closed", "C14_never_partial", "C14_not_empty", "C14_checksum", "C14_untouched",
             "C14_row_count_metadata_only", "C14_history_independent", "C14_checksum_survives_history", "C14_no_check_use_gap", "C14_list_fields_without_read_meaning",
-            "C14_recovery_listing_fails_closed", "C14_healthy_ok",
+            "C14_recovery_listing_fails_closed", "C14_batched_guard_complete", "C14_healthy_ok",
             "C14_fail_closed_full_refuted"]
 REQ = ["DS.Gen.GenRead", "DS.Model.Read"]
 KNOWN_KEY = "current-metadata-file-deleted-serves-previous-version"
@@ -397,6 +397,30 @@ def variant_nosum(path: str) -> None:
     _rewrite(path, inv.manifests[0], _avro_rewrite(inv.files[inv.manifests[0]], strip))
 
 
+def variant_rowgroups(path: str) -> None:
+    """Every data file rewritten with SEVERAL row groups (row_group_size=2), and registered again with its new
+    size and checksum: the footer then carries per-row-group counts and offsets next to the file-level ones."""
+    import pyarrow.parquet as pq
+    inv = Inventory(path)
+    new: Dict[str, bytes] = {}
+    for d in inv.data:
+        t = pq.read_table(io.BytesIO(inv.files[d]))
+        out = io.BytesIO()
+        pq.write_table(t, out, row_group_size=2)
+        new[d] = out.getvalue()
+        _rewrite(path, d, new[d])
+
+    def reregister(recs):
+        for r in recs:
+            p = r["data_file"]["file_path"].lstrip("/")
+            if p in new:
+                r["data_file"]["checksum"] = hashlib.sha256(new[p]).hexdigest()
+                r["data_file"]["file_size_in_bytes"] = len(new[p])
+        return recs
+    for m in inv.manifests:
+        _rewrite(path, m, _avro_rewrite(inv.files[m], reregister))
+
+
 def _variant_cur(value):
     def f(path: str) -> None:
         inv = Inventory(path)
@@ -420,6 +444,7 @@ VARIANTS: Dict[str, Tuple[List[List[int]], Any, bool]] = {
     "json": ([[2, 1], [2]], variant_json, True),
     "dup": ([[2, 1], [2]], variant_dup, True),
     "nosum": ([[2, 1], [2]], variant_nosum, True),
+    "rowgroups": ([[7, 5], [6]], variant_rowgroups, True),
     "dangling": ([[2], [1]], _variant_cur(424242), False),
     "cur-minus1": ([[2], [1]], _variant_cur(-1), False),
     "cur-null": ([[2], [1]], _variant_cur(None), False),
@@ -886,7 +911,7 @@ def field_edits_for(inv: Inventory, path: str, tier: str) -> List[Dict[str, Any]
     except Exception:
         return []
     out: List[Dict[str, Any]] = []
-    which = range(len(recs)) if tier == "thorough" else sorted({0, len(recs) - 1})
+    which = range(len(recs)) if tier == "thorough" else [len(recs) - 1]
     for i in which:
         for field, value in table:
             d = field_edit(inv, path, f"edit:{i}:{field}={json.dumps(value)}")
@@ -925,6 +950,8 @@ def field_edits_for(inv: Inventory, path: str, tier: str) -> List[Dict[str, Any]
             if key is None or key in seen:
                 continue
             seen.add(key)
+            if tier != "thorough" and len(seen) > 10:
+                continue
             out.append({"name": f"xor@{o}:{mask}", "class": "edit", "writes": {path: b2}, "field": str(key)})
     del base
     return out
@@ -939,7 +966,7 @@ def damage_by_name(inv: Inventory, path: str, name: str) -> Optional[Dict[str, A
     if name.startswith("xor@"):
         o, mask = name[4:].split(":")
         if int(o) < n:
-            return {"name": name, "class": "edit", "writes": {path: orig[:int(o)] + bytes([orig[int(o)] ^ int(mask)]) + orig[int(o) + 1:]}}
+            return {"name": name, "class": "flip" if inv.roles.get(path) == "data" else "edit", "writes": {path: orig[:int(o)] + bytes([orig[int(o)] ^ int(mask)]) + orig[int(o) + 1:]}}
         return None
     head, _, arg = name.partition("@")
     if name == "delete":
@@ -1005,7 +1032,8 @@ def damages_for(inv: Inventory, path: str, tier: str, rng: random.Random) -> Lis
             if len(found) >= 2:
                 break
     out.append({"name": "braces", "class": "replace", "writes": {path: b"{}"}})
-    out.append({"name": "text", "class": "replace", "writes": {path: b"not a table file\n"}})
+    if tier == "thorough":
+        out.append({"name": "text", "class": "replace", "writes": {path: b"not a table file\n"}})
     flips = set(([0, 3, n // 3, n // 2, n - 5, n - 1] if tier == "thorough" else [0, n // 2, n - 1]) + [b for b in bounds if b < n])
     if tier == "thorough":
         flips |= set(range(0, n, max(1, n // 32)))
@@ -1025,16 +1053,26 @@ def damages_for(inv: Inventory, path: str, tier: str, rng: random.Random) -> Lis
                 found += 1
                 if found >= 2:
                     break
-    if role == "data" and len(bounds) >= 2:
-        # footer flips that pq.read_table rejects while ParquetFile.iter_batches goes on without an error
-        # (e.g. a column chunk's value count): the generator APIs must not hand out fewer rows silently
+    if role == "data" and len(bounds) >= 2 and (tier == "thorough" or inv.data.index(path) < 2):
+        # footer damage found per field by search: every single-byte change (several masks: a count made smaller or
+        # larger, an offset moved) of the footer after which ParquetFile.iter_batches runs to the end WITHOUT an error
+        # yet hands out fewer rows than the file holds -- row-group num_rows, column-chunk num_values, offsets, in
+        # files with one or several row groups.  One damage per distinct outcome (rows handed out, what the
+        # one-shot reader says); the generator APIs must raise on all of them.
+        full = len(inv.file_rows[path])
+        seen_sig = set()
         for o in range(bounds[1], bounds[-2] if len(bounds) > 2 else n):
-            if o in flips:
-                continue
-            b2 = orig[:o] + bytes([orig[o] ^ 0xFF]) + orig[o + 1:]
-            rb = classify("parquet:raw-batches", b2)
-            if classify("parquet:scan", b2)[0] != "ok" and rb[0] == "ok" and rb[1] < len(inv.file_rows[path]):
-                out.append(dict(damage_by_name(inv, path, f"flip@{o}"), footer_flip=True))
+            for mask in ((0xFF, 0x01, 0x02, 0x04, 0x08, 0x10, 0x20, 0x40, 0x80) if tier == "thorough" else (0xFF, 0x01, 0x04, 0x20)):
+                b2 = orig[:o] + bytes([orig[o] ^ mask]) + orig[o + 1:]
+                rb = classify("parquet:raw-batches", b2)
+                if rb[0] != "ok" or rb[1] >= full:
+                    continue
+                sig = (rb[1], classify("parquet:scan", b2)[0])
+                if sig in seen_sig:
+                    continue
+                seen_sig.add(sig)
+                out.append(dict(damage_by_name(inv, path, f"xor@{o}:{mask}"), footer_flip=True, field=f"rows handed out {rb[1]}/{full}"))
+            if len(seen_sig) >= (8 if tier == "thorough" else 3):
                 break
     for sib in inv.siblings(path):
         out.append({"name": "swap-sibling", "class": "swap", "writes": {path: inv.files[sib], sib: orig}, "sibling": sib})
@@ -1392,7 +1430,7 @@ def run_table(ctx, path: str, shape: List[List[int]], tag: str, file_limit: Opti
         for d in damages_for(inv, p, ctx.tier, rng):
             red = (role in reduced) if isinstance(reduced, (set, frozenset)) else bool(reduced)
             if red and not (d["name"] in REDUCED or d["class"] == "transient" or d.get("structural")
-                            or d["name"].startswith("random")):
+                            or d["name"].startswith("random") or d.get("footer_flip") or d.get("value_flip")):
                 continue
             targets_dmgs.append((p, role, d))
     pre = "same-handle:" if session else ""
@@ -1790,7 +1828,7 @@ def outage_plans(ncalls: int, tier: str) -> List[Dict[str, Any]]:
     and m in 1..3 (m = 1 is the single failing call, here also on operations no per-file fault reaches, such as the
     directory listing of the recovery scan), and outages of a whole class of calls for the whole read."""
     plans: List[Dict[str, Any]] = []
-    for m in (1, 2, 3) if tier == "quick" else (1, 2, 3, 5):
+    for m in (2, 3) if tier == "quick" else (1, 2, 3, 5):
         for k in range(ncalls):
             plans.append({"from": k, "len": m, "ops": "all", "paths": "all"})
     for k in (range(ncalls) if tier == "thorough" else range(0, ncalls, 3)):
@@ -1915,15 +1953,16 @@ def run(ctx) -> None:
         for name, (shape, _tr, full) in VARIANTS.items():
             run_table(ctx, os.path.join(ctx.scratch, f"v-{name}"), shape, f"variant:{name}", variant=name,
                       reduced=(ctx.tier == "quick" or not full),
-                      file_limit=(2 if not full else 5 if ctx.tier == "quick" else None))
+                      file_limit=(2 if not full else 4 if ctx.tier == "quick" else None))
     except RuntimeError as e:
         ctx.proof_problems.append("model evaluation failed (variants): " + str(e)[:800])
     oracle_filtered(ctx, os.path.join(ctx.scratch, "tf"))
     oracle_fresh_handle(ctx, os.path.join(ctx.scratch, "th"))
     oracle_options(ctx, os.path.join(ctx.scratch, "to"))
     oracle_mid_call(ctx, os.path.join(ctx.scratch, "tm"), [[2, 2], [3]])
-    for i, (variant, sess) in enumerate([(None, False), ("no-pointer", False), ("bad-pointer", False), ("json", False), (None, True)]
-                                         + ([("legacy-pointer-missing-file", False), ("no-pointer", True), ("dup", False)] if ctx.tier == "thorough" else [])):
+    for i, (variant, sess) in enumerate([(None, False), ("no-pointer", False), (None, True)]
+                                         + ([("bad-pointer", False), ("json", False), ("legacy-pointer-missing-file", False), ("no-pointer", True),
+                                             ("dup", False)] if ctx.tier == "thorough" else [])):
         oracle_outage(ctx, os.path.join(ctx.scratch, f"to{i}"), [[2, 1], [2]], variant, f"outage:{variant or 'standard'}{':session' if sess else ''}", sess)
     shrink(ctx)
 
